@@ -87,7 +87,7 @@ def check(tier):
     # exhaustive nesting chains (MC_NestChains.tla): a component reached through every chain of <= 3 anonymous
     # wrappers (SEQUENCE OF, SET OF, SEQUENCE, SET, CHOICE in any order) ending in each kind of leaf
     nc_cfg = run.path("MC_NestChains.cfg")
-    open(nc_cfg, "w").write(f"SPECIFICATION Spec\nCONSTANT MaxChain = {3 if tier == 'quick' else 4}\nINVARIANTS PathShaped Emit EmitNames EmitImported\nCHECK_DEADLOCK FALSE\n")
+    open(nc_cfg, "w").write(f"SPECIFICATION Spec\nCONSTANT MaxChain = {3 if tier == 'quick' else 4}\nINVARIANTS PathShaped Emit EmitNames EmitImported EmitClassHosts\nCHECK_DEADLOCK FALSE\n")
     nc = core.tlc("mc/MC_NestChains.tla", nc_cfg, workers=1, timeout=1800, xmx="8g")
     run.add_tlc(nc, "NestChains exhaustive: outer kind x wrapper chains x leaf kind")
     chains = nc.printed("CASE")
